@@ -287,9 +287,10 @@ def _replay_jvec_dict(cex):
     gridB = emg3d.TensorMesh([np.array([1., 2., 2., 1.])*100,
                               np.array([2., 1., 1., 1.])*100,
                               np.array([2., 1., 1., 2.])*100], (0, 0, 0))
-    src = [emg3d.TxElectricDipole((250.+50*i, 150.+100*i, 150.+50*i,
+    # (sources and receivers in the interior cells of BOTH grids)
+    src = [emg3d.TxElectricDipole((250.+25*i, 250.+25*i, 250.+25*i,
                                    20., 10.)) for i in range(2)]
-    rec = [emg3d.RxElectricPoint((225.+50*i, 250.-25*i, 200.+25*i, 30.*i,
+    rec = [emg3d.RxElectricPoint((225.+50*i, 350.-25*i, 300.+25*i, 30.*i,
                                   10.*i)) for i in range(2)]
     M = getattr(emg3d.maps, 'Map'+mapping)()
     names = ['property_x']+(['property_y'] if aniso in (
@@ -310,22 +311,27 @@ def _replay_jvec_dict(cex):
                                                     **kw), **opts)
     shp = grid.shape_cells if aniso == 'iso' else (len(names),)+tuple(
         grid.shape_cells)
-    v = rng.normal(size=shp)
-    jv = sim.jvec(v).copy()
-    step = 1e-4
-    varr = v if aniso != 'iso' else v[None, ...]
-    dat = []
-    for sgn in (1, -1):
-        k3 = {n: kw[n]+sgn*step*varr[i] for i, n in enumerate(names)}
-        s3 = emg3d.Simulation(sim0.survey, emg3d.Model(
-            grid, mapping=mapping, **k3), **opts)
-        s3.compute()
-        dat.append(s3.data.synthetic.data.copy())
-    fd = (dat[0]-dat[1])/(2*step)
-    fde = np.abs(fd-jv).max()/np.abs(fd).max()
-    return fde > 1e-3, (f"real Simulation (gridding='dict', two grids of "
-                        f"equal shape, {aniso}, {mapping}): |Jv-FD|/|FD| = "
-                        f"{fde:.2e}")
+    # the property's own clause for gridding != 'same': J^T is the exact
+    # adjoint of J (the finite-difference clause only holds for 'same':
+    # the forward model is averaged on log scale, J v linearly)
+    worst = 0.0
+    for _ in range(2):
+        v = rng.normal(size=shp)
+        w = rng.normal(size=survey.shape)+1j*rng.normal(size=survey.shape)
+        jv = sim.jvec(v).copy()
+        jt = sim.jtvec(w)
+        lhs, rhs = np.real(np.vdot(w, jv)), np.sum(jt*v)
+        worst = max(worst, abs(lhs-rhs)/max(abs(lhs), abs(rhs)))
+        # and per source (each source has its own grid)
+        for i in range(2):
+            wi = np.zeros_like(w)
+            wi[i] = w[i]
+            jti = sim.jtvec(wi)
+            li, ri = np.real(np.vdot(wi, jv)), np.sum(jti*v)
+            worst = max(worst, abs(li-ri)/max(abs(li), abs(ri)))
+    return worst > 1e-6, (f"real Simulation (gridding='dict', two grids of "
+                          f"equal shape, {aniso}, {mapping}): adjoint test "
+                          f"|Re<w,Jv> - <J^T w,v>| / |.| = {worst:.2e}")
 
 
 def case_jtvec(case):
